@@ -529,12 +529,18 @@ def run_schema(schema: dict, rng, exercise: int = 40) -> SchemaRun:
     try:
         with contextlib.redirect_stdout(out), warnings.catch_warnings():
             warnings.simplefilter("ignore")
+            for aname, asrc in schema.get("aux", []):
+                _exec_aux_module(aname, asrc)
             builtins.exec(compile(schema["src"], f"<{name}>", "exec", dont_inherit=True), mod.__dict__)
     except Exception as e:   # noqa
         sr.build_error = e
         own = own_making(e)
         if own:
             sr.finding("own-" + own[0], "at class creation: " + own[1], entry="<module>", input=None, exc=own[1], name=own[2])
+        elif schema.get("must_build"):
+            # this family only contains schemas the library supports: a refusal means a type was bound to something else
+            sr.finding("build-error", f"class creation failed: {type(e).__name__}: {str(e)[:300]}", entry="<module>", input=None,
+                       name=type(e).__name__)
         seal(start)
         sr.programs = CAPTURED[start:]
         static_names_oracle(sr, schema)
@@ -823,8 +829,22 @@ def _pairs(a, b):
         yield a, b
 
 
+def _exec_aux_module(aname: str, asrc: str):
+    """auxiliary user module / package of a multi-module schema ('pkg', 'pkg.sub', ...)"""
+    m = types.ModuleType(aname)
+    m.__path__ = []          # every one may act as a package
+    m.__package__ = aname.rpartition(".")[0] or aname
+    sys.modules[aname] = m
+    parent, _, child = aname.rpartition(".")
+    if parent and parent in sys.modules:
+        setattr(sys.modules[parent], child, m)
+    builtins.exec(compile(asrc, f"<{aname}>", "exec", dont_inherit=True), m.__dict__)
+
+
 def cleanup(sr: SchemaRun):
     sys.modules.pop(sr.schema["module"], None)
+    for aname, _ in sr.schema.get("aux", []):
+        sys.modules.pop(aname, None)
 
 
 # ---------------------------------------------------------------------------
@@ -893,8 +913,6 @@ def classify(f: dict, d: dict, module: str, src: str = "") -> dict:
         if name.startswith("<forward-ref>"):
             return {"kind": "unresolved-name", "cause": "forward-ref-evaluated-in-builder-globals"}
         prog = f.get("program") or ""
-        if prog and name and _only_in_omit_default_tuple(prog, name):
-            return {"kind": "unresolved-name", "cause": "omit-default-tuple-repr"}
         if prog and name and _only_in_union_type_test(prog, name):
             return {"kind": "unresolved-name", "cause": "union-member-bare-name"}
         if name == types.MappingProxyType.__qualname__ and types.MappingProxyType.__module__ == "builtins" and not hasattr(builtins, name):
@@ -911,10 +929,23 @@ def classify(f: dict, d: dict, module: str, src: str = "") -> dict:
             cause = "defaultdict-factory-local"
         elif name.lstrip().startswith("CodeBuilder(") and "<locals>" in name:
             cause = "local-class-in-lazy-stub"
-        elif name.lstrip().startswith("if value != ("):
-            cause = "omit-default-tuple-repr"
+
         return {"kind": "generated-syntax-error", "cause": cause}
+    if kind == "build-error":
+        import re
+        cause = "other"
+        if src and "use_annotations=True" in src:
+            for m in re.finditer(r"^from [\w.]+ import (\w+)$", src, re.M):
+                nm = m.group(1)
+                if nm in BUILDER_ATTRS and re.search(r"(->|:) *['\"]?[\w\[, ]*\b" + nm + r"\.", src):
+                    cause = "annotation-name-in-builder-dict"
+        return {"kind": "build-error", "cause": cause}
     return {"kind": kind, "cause": "other"}
+
+
+# instance attributes of CodeBuilder: its __dict__ is the *local* namespace of evaluate_forward_ref
+BUILDER_ATTRS = {"cls", "lines", "globals", "resolved_type_params", "field_classes", "initial_type_args", "dialect", "default_dialect",
+                 "allow_postponed_evaluation", "format_name", "decoder", "encoder", "encoder_kwargs", "attrs", "attrs_registry"}
 
 
 def _only_in_union_type_test(prog: str, name: str) -> bool:
@@ -924,17 +955,6 @@ def _only_in_union_type_test(prog: str, name: str) -> bool:
     for ln in prog.splitlines():
         if re.search(r"(?<![\w.])" + re.escape(name) + r"\b", ln):
             if not re.fullmatch(r"if (__value_type|type\(value\)) is " + re.escape(name) + r":", ln.strip()):
-                return False
-            hit = True
-    return hit
-
-
-def _only_in_omit_default_tuple(prog: str, name: str) -> bool:
-    import re
-    hit = False
-    for ln in prog.splitlines():
-        if re.search(r"(?<![\w.])" + re.escape(name) + r"\b", ln):
-            if not ln.strip().startswith("if value != ("):
                 return False
             hit = True
     return hit
